@@ -166,9 +166,15 @@ func (c Case) Render(si int, root string) string {
 		}
 		sb.WriteString("end\n")
 	}
+	// the end is a boundary too (the probes, unlike log(), do not depend on the log level)
+	fmt.Fprintf(&sb, "tag.ls(%q)\n", ProbeHost+"/"+ProbeRepo(si, len(c.Scripts[si].Stmts)))
 	fmt.Fprintf(&sb, "log(%q)\n", EndMark(si))
 	return strings.ReplaceAll(sb.String(), RootToken, root)
 }
+
+// Quiet tells whether the log level drops the info records log() writes (the
+// marker messages): progress is then known from the boundary probes only.
+func (c Case) Quiet() bool { return c.Verbosity == "warn" || c.Verbosity == "error" }
 
 // HasMut tells whether any statement of the case calls a mutating binding.
 func (c Case) HasMut() bool {
